@@ -348,6 +348,11 @@ func (g *Gen) yaml(n int) string {
 			if g.Kind == "unknown-type" && prefix == recvType && id == ids[0] {
 				out = "nosuchtype/r0"
 			}
+			if id == ids[0] && prefix == expType {
+				// the generation number of the first exporter comes from the value provider
+				fmt.Fprintf(&b, "  %s: {gen: \"${%s:gen}\"}\n", out, valScheme)
+				continue
+			}
 			fmt.Fprintf(&b, "  %s: {gen: %d}\n", out, n)
 		}
 		return ids
@@ -392,9 +397,17 @@ func (g *Gen) yaml(n int) string {
 const (
 	mainScheme = "vt"
 	auxScheme  = "vx"
+	// valScheme is never a configuration location: it is used only through ${ve:gen} references inside the main
+	// document (the way the env provider is used); idleScheme is registered and never used at all.  Both are
+	// "configuration providers" of the run and are owed exactly one Shutdown like the others.
+	valScheme  = "ve"
+	idleScheme = "vu"
 )
 
 var schemes = []string{mainScheme, auxScheme}
+
+// allSchemes: every registered provider (the close ledger exists for the two location providers only)
+var allSchemes = []string{mainScheme, auxScheme, valScheme, idleScheme}
 
 type provider struct {
 	w      *world
@@ -420,6 +433,12 @@ func (w *world) closer(scheme string, n int) confmap.RetrievedOption {
 
 func (p *provider) Retrieve(_ context.Context, _ string, watcher confmap.WatcherFunc) (*confmap.Retrieved, error) {
 	w := p.w
+	if p.scheme == valScheme || p.scheme == idleScheme {
+		w.mu.Lock()
+		n := w.retrieves - 1 // references are expanded after the locations have been retrieved
+		w.mu.Unlock()
+		return confmap.NewRetrieved(n)
+	}
 	if p.scheme == auxScheme {
 		w.mu.Lock()
 		n := w.retrieves - 1 // the main source is resolved first
@@ -693,6 +712,8 @@ func (w *world) newCollector() (*otelcol.Collector, error) {
 					w.provLoggers[1] = ps.Logger
 					return &provider{w: w, scheme: auxScheme}
 				}),
+				confmap.NewProviderFactory(func(confmap.ProviderSettings) confmap.Provider { return &provider{w: w, scheme: valScheme} }),
+				confmap.NewProviderFactory(func(confmap.ProviderSettings) confmap.Provider { return &provider{w: w, scheme: idleScheme} }),
 			},
 		}},
 	})
